@@ -56,9 +56,9 @@ Qed.
 
 (* ---- overrides of the copy / conversion / representation methods (gen/Overrides.v, from the imported classes) *)
 Open Scope string_scope.
-(* what Model.v transcribes class by class (to / type / dtype), XX
-   representation*), what only matters off the CPU (device), and evaluate_kernel of the AddedDiag family (goes through
-   __add__: compared by the direct predicates only) *)
+(* what Model.v transcribes class by class (to / type / dtype, and the representation methods of Mul), what only
+   matters off the CPU (device), and evaluate_kernel of the AddedDiag family (goes through __add__: compared by the
+   direct predicates only) *)
 Definition modelled_overrides : list (cls * string) :=
   [ (CIdentity, "to"); (CIdentity, "type"); (CIdentity, "dtype"); (CIdentity, "device");
     (CZero, "dtype"); (CZero, "device");
